@@ -3,6 +3,7 @@
    coordinates ([rect], [cf2d_given_cell], [cf2d_synth_cell], [arakawa_cell], [ugrid_face]); these theorems say at
    which position each cell's polygon sits, when a cell has none, and what the synthesised bounds are. *)
 From Coq Require Import ZArith QArith List Bool.
+From EV Require Import Model.BoundsName Proofs.BoundsNameP.
 From EV Require Import Base.Index Base.Geom Model.Polygons Proofs.PolygonsP Proofs.PolygonsP2.
 Import ListNotations.
 Open Scope Z_scope.
@@ -101,3 +102,17 @@ Theorem C06_cf1d_refused_bounds_ignored : forall ydim xdim lon lat lonb latb,
   match cf1d_synth lon, cf1d_synth lat with Some xb, Some yb => Some (cf1d_raw xb yb) | _, _ => None end.
 Proof. exact cf1d_refused_ignored. Qed.
 Print Assumptions C06_cf1d_refused_bounds_ignored.
+
+(* ---- where the name of the bounds variable is found (utils.get_bounds_name, repair 8b078a0) *)
+(* opening a file with decode_coords='all' (the bounds attribute moves to the encoding) changes neither the name found nor
+   whether the stored bounds are used *)
+Theorem C06_bounds_name_survives_decode_coords : forall present v, enc_bounds v = None ->
+  get_bounds_name (decode_all v) = get_bounds_name v /\ uses_stored present (decode_all v) = uses_stored present v.
+Proof. intros present v H. split; [now apply decode_all_same_name|now apply decode_all_same_use]. Qed.
+Print Assumptions C06_bounds_name_survives_decode_coords.
+
+(* the lookup in the attributes alone loses it *)
+Theorem C06_bounds_name_attrs_only_refuted :
+  exists v, enc_bounds v = None /\ get_bounds_name_old v <> None /\ get_bounds_name_old (decode_all v) = None.
+Proof. exact old_lookup_refuted. Qed.
+Print Assumptions C06_bounds_name_attrs_only_refuted.
